@@ -87,6 +87,30 @@ func Execute(conf Conf, rng *rand.Rand, script Script, mon Monitor, maxOps int) 
 			t.Hang = res
 			break
 		}
+		if (k == "reload" || k == "restart") && res == "ok" {
+			// coverage: in how many pools (and in a later pool of a shared pod subnet?) live bound pods held addresses
+			// when ConfigurePool rebuilt the tables
+			pools := map[int]bool{}
+			later := false
+			for _, lp := range w.LiveBound() {
+				for _, ip := range lp.IPs {
+					for i, pl := range w.Pools {
+						if pl.Has(ip) {
+							pools[i] = true
+							for j, q := range w.Pools {
+								if j != i && q.Gateway>>8 == pl.Gateway>>8 && (q.Gateway < pl.Gateway || (q.Gateway == pl.Gateway && j < i)) {
+									later = true
+								}
+							}
+						}
+					}
+				}
+			}
+			t.hit(fmt.Sprintf("%s-with-live-ips-in-%d-pools", k, len(pools)))
+			if later {
+				t.hit(k + "-with-live-ip-in-later-pool-of-shared-subnet")
+			}
+		}
 		t.Lines = append(t.Lines, "dump")
 		t.Impl = append(t.Impl, w.Digest())
 		if mon != nil {
